@@ -328,6 +328,10 @@ pub struct ScriptedWriter {
     pub got: Vec<u8>,
     pub mode: WMode,
     pub fail_after: Option<usize>,
+    /// the kind of the scripted write error, and whether the writer accepts bytes again after reporting it once (an
+    /// implementation that retries after an error must not put anything on the wire twice)
+    pub fail_kind: std::io::ErrorKind,
+    pub fail_once: bool,
     pub calls: usize,
     pend_next: bool,
     pub flushed: usize,
@@ -338,7 +342,7 @@ pub struct ScriptedWriter {
 }
 impl ScriptedWriter {
     pub fn new(mode: WMode) -> Self {
-        ScriptedWriter { got: vec![], mode, fail_after: None, calls: 0, pend_next: true, flushed: 0, closed: false, on_first_write: None }
+        ScriptedWriter { got: vec![], mode, fail_after: None, fail_kind: std::io::ErrorKind::BrokenPipe, fail_once: false, calls: 0, pend_next: true, flushed: 0, closed: false, on_first_write: None }
     }
 }
 impl futures_io::AsyncWrite for ScriptedWriter {
@@ -360,7 +364,10 @@ impl futures_io::AsyncWrite for ScriptedWriter {
         if let Some(limit) = self.fail_after {
             let room = limit.saturating_sub(self.got.len());
             if room == 0 {
-                return Poll::Ready(Err(std::io::Error::new(std::io::ErrorKind::BrokenPipe, "scripted write error")));
+                if self.fail_once {
+                    self.fail_after = None;
+                }
+                return Poll::Ready(Err(std::io::Error::new(self.fail_kind, "scripted write error")));
             }
             k = k.min(room);
         }
